@@ -27,18 +27,46 @@ import warnings
 from harness.lib.producer_drive import msg_value
 
 TOPICS = ["t0", "t1"]
+CONNECT_TIMEOUT = 30.0
+
+
+def batch_bound(script):
+    """virtual seconds within which a batch in flight must have resolved (generous: 3x what the parts add up to)"""
+    prod = script["producer"]
+    timeout = script.get("client", {}).get("timeout", 10000) / 1000.0
+    attempts = max(1, prod["max_req_attempts"])
+    # per attempt: the request (<= timeout) + metadata look-ups around it (each <= one connection attempt + timeout
+    # per bootstrap host tried); retry delays: interval * 1.20205^k
+    delays = sum(prod["retry_interval"] * 1.20205 ** k for k in range(attempts))
+    hosts = script["cluster"]["brokers"] if isinstance(script["cluster"]["brokers"], int) else len(script["cluster"]["brokers"])
+    faults = sum(st.get("seconds", 0) for st in script["steps"] if st.get("action") == "delay")
+    return 3 * (attempts * (timeout + hosts * (timeout + CONNECT_TIMEOUT)) + delays + faults) + 10
+
+
 
 
 def gen_script(rng, pid):
-    brokers = rng.choice([1, 2, 3, 3])
-    topics = {"t0": rng.choice([1, 2, 3]), "t1": rng.choice([1, 2])}
-    batch = rng.random() < (0.7 if pid == "C19" else 0.4)
+    """shape "classic": any topology, faults addressed by topic/partition.  shape "multibroker": >= 2 brokers, a
+    topic with >= 2 partitions (so one batch has payloads for several leaders), batching that merges several sends
+    into one request, bursts of sends at one instant, and faults addressed to ONE BROKER (its Produce requests
+    swallowed / answered late / connection dropped; the whole broker hung; the broker cut off - connections dropped
+    and new ones refused or never completing): a request of the client then fails for one broker's payloads while
+    the others' are answered."""
+    shape = rng.choice(["classic", "classic", "multibroker", "multibroker", "multibroker"])
+    if shape == "multibroker":
+        brokers = rng.choice([2, 3, 3])
+        topics = {"t0": rng.choice([2, 3, 3, 4]), "t1": rng.choice([1, 2, 3])}
+        batch = rng.random() < 0.8
+    else:
+        brokers = rng.choice([1, 2, 3, 3])
+        topics = {"t0": rng.choice([1, 2, 3]), "t1": rng.choice([1, 2])}
+        batch = rng.random() < (0.7 if pid == "C19" else 0.4)
     prod = {
         "req_acks": rng.choice([1, 1, -1, 0]),
         "max_req_attempts": rng.choice([1, 2, 3, 5, 10]),
         "retry_interval": rng.choice([0.25, 0.25, 0.5, 0.125]),
         "batch_send": batch,
-        "batch_every_n": rng.choice([2, 3, 5, 10, 0]) if batch else 10,
+        "batch_every_n": (rng.choice([2, 2, 3, 4]) if shape == "multibroker" else rng.choice([2, 3, 5, 10, 0])) if batch else 10,
         "batch_every_b": rng.choice([0, 100, 32768]) if batch else 32768,
         "batch_every_t": rng.choice([None, 0.5, 1, 2]) if batch else 30,
         "codec": rng.choice([None, None, 1]),
@@ -49,13 +77,17 @@ def gen_script(rng, pid):
     nsend = rng.choice([2, 4, 6, 10])
     keys = [None, "6b", "6b32", "00ff10"]
     sid = 0
-    fault_style = rng.choice(["none", "errors", "errors", "persist", "transport", "leader", "mixed"])
+    if shape == "multibroker":
+        fault_style = rng.choice(["broker", "broker", "broker", "broker", "errors", "mixed", "none"])
+    else:
+        fault_style = rng.choice(["none", "errors", "errors", "persist", "transport", "leader", "mixed"])
     nf = 0 if fault_style == "none" else rng.choice([1, 2, 3])
     for _ in range(nf):
-        ft = round(rng.random() * 3, 3)
+        # (faults are mostly placed after the first request has fetched the metadata: t >= 0.05)
+        ft = round(rng.random() * 3, 3) if shape == "classic" else round(rng.choice([0.0, 0.05, 0.05, 0.15, 0.5, 1.0]) + rng.random() * 0.1, 3)
         topic = rng.choice(TOPICS)
         part = rng.randrange(topics[topic])
-        style = fault_style if fault_style != "mixed" else rng.choice(["errors", "persist", "transport", "leader"])
+        style = fault_style if fault_style != "mixed" else rng.choice(["errors", "persist", "transport", "leader", "broker"])
         if style == "errors":
             steps.append({"at": ft, "do": "inject", "action": "error", "api": "Produce", "topic": topic, "partition": part,
                           "code": rng.choice([6, 3, 7, 19, 5, 2, 10]), "times": rng.choice([1, 1, 2, 3])})
@@ -74,6 +106,32 @@ def gen_script(rng, pid):
                 if act == "delay":
                     st["seconds"] = rng.choice([0.5, 2, 20])
                 steps.append(st)
+        elif style == "broker":
+            node = rng.randrange(1, brokers + 1)
+            act = rng.choice(["silent", "silent", "drop_after", "delay", "hung", "cutoff", "cutoff", "cutoff", "down"])
+            if act in ("silent", "drop_after", "delay"):
+                # (a connection dropped on EVERY request would be re-made and the request re-sent for ever at one
+                # virtual instant - the network has no latency here: only finitely many drops)
+                st = {"at": ft, "do": "inject", "action": act, "api": "Produce", "broker": node,
+                      "times": rng.choice([1, 1, 2, 3, None] if act != "drop_after" else [1, 1, 2, 3])}
+                if act == "delay":
+                    st["seconds"] = rng.choice([0.5, 3, 20])
+                steps.append(st)
+            elif act == "hung":
+                steps.append({"at": ft, "do": "set", "broker": node, "attr": "silent", "value": True})
+                if rng.random() < 0.5:
+                    steps.append({"at": round(ft + rng.choice([1, 4, 15]), 3), "do": "heal_silence", "node_id": node})
+            elif act == "cutoff":
+                # the broker stays in the metadata as the leader, its connections drop and new ones are refused /
+                # never complete (the connection attempt times out at the transport level after 30 s)
+                steps.append({"at": ft, "do": "set", "broker": node, "attr": "mode", "value": rng.choice(["blackhole", "blackhole", "refuse"])})
+                steps.append({"at": ft, "do": "restart_broker", "node_id": node})
+                if rng.random() < 0.4:
+                    steps.append({"at": round(ft + rng.choice([1, 4, 15, 40]), 3), "do": "set", "broker": node, "attr": "mode", "value": "accept"})
+            else:
+                steps.append({"at": ft, "do": "kill_broker", "node_id": node, "elect": rng.random() < 0.5})
+                if rng.random() < 0.6:
+                    steps.append({"at": round(ft + rng.choice([0.5, 2, 8]), 3), "do": "start_broker", "node_id": node})
         else:
             if brokers > 1:
                 if rng.random() < 0.5:
@@ -84,18 +142,21 @@ def gen_script(rng, pid):
                     steps.append({"at": ft, "do": "kill_broker", "node_id": node})
                     if rng.random() < 0.7:
                         steps.append({"at": ft + rng.choice([0.5, 2, 8]), "do": "start_broker", "node_id": node})
+    gaps = [0, 0, 0.01, 0.1, 0.3, 1.0] if shape == "classic" else [0, 0, 0, 0, 0.01, 0.1, 0.3, 1.0]
     for _ in range(nsend):
-        t = round(t + rng.choice([0, 0, 0.01, 0.1, 0.3, 1.0]), 3)
+        t = round(t + rng.choice(gaps), 3)
         sizes = [rng.choice([None, 0, 3, 12, 12, 30, 30, 200, 5000]) for _ in range(rng.choice([1, 1, 2, 3]))]
         key = None if prod["partitioner"] == "rr" and rng.random() < 0.6 else rng.choice(keys[1:] if prod["partitioner"] == "hashed" else keys)
-        steps.append({"at": t, "do": "send", "sid": sid, "topic": rng.choice(TOPICS), "key": key, "sizes": sizes})
+        topic = rng.choice(TOPICS if shape == "classic" else ["t0", "t0", "t0", "t1"])
+        steps.append({"at": t, "do": "send", "sid": sid, "topic": topic, "key": key, "sizes": sizes})
         if rng.random() < (0.15 if pid == "C19" else 0.05):
             steps.append({"at": round(t + rng.choice([0, 0.05, 0.5]), 3), "do": "cancel", "sid": sid})
         sid += 1
     if rng.random() < (0.6 if pid == "C19" else 0.3):
         steps.append({"at": round(rng.random() * (t + 1.5), 3), "do": "stop"})
     return {"fullstack": True, "seed": rng.randrange(1 << 30), "cluster": {"brokers": brokers, "topics": topics},
-            "client": {"timeout": rng.choice([2000, 5000, 10000])}, "producer": prod, "steps": steps, "until": 200.0}
+            "client": {"timeout": rng.choice([2000, 5000, 10000] if shape == "classic" else [1000, 2000, 5000])},
+            "producer": prod, "steps": steps, "until": 200.0}
 
 
 class FSRun(object):
@@ -109,6 +170,8 @@ class FSRun(object):
         self.error = None
         self.cluster = None
         self.lost = []
+        self.stuck = None
+        self.stuck_sends = []
         self.tracer = None
 
 
@@ -124,6 +187,10 @@ def run_script(script, trace=False):
     r = FSRun(script)
     cluster = F.build_cluster(script["cluster"], script["seed"])
     r.cluster = cluster
+    for b in cluster.brokers.values():
+        if b.connect_timeout is None:
+            # a connection attempt that is never answered fails at the transport level (Twisted's endpoints: 30 s)
+            b.connect_timeout = CONNECT_TIMEOUT
     rec = F.Recorder(cluster)
     steps = sorted(enumerate(script["steps"]), key=lambda x: (x[1]["at"], x[0]))
     with warnings.catch_warnings(), F.Determinism(cluster, script["seed"]):
@@ -186,13 +253,30 @@ def run_script(script, trace=False):
                     cluster.inject(kw2.pop("action"), **kw2)
                 elif do == "set":
                     setattr(cluster.brokers[st["broker"]], st["attr"], st["value"])
-                elif do in ("move_leader", "kill_broker", "start_broker"):
+                elif do in ("move_leader", "kill_broker", "start_broker", "restart_broker", "heal_silence"):
                     kw2 = {k: v for k, v in st.items() if k not in ("at", "do")}
                     getattr(cluster, do)(**kw2)
                 else:
                     raise ValueError(do)
                 cluster.settle()
             cluster.run_until_idle(timeout=max(0.0, script.get("until", 200.0) - cluster.clock.seconds()))
+            # LIVENESS: the batch in flight resolves.  Every attempt of the client ends within its request timeout
+            # (plus the metadata look-ups it makes), there are at most max_req_attempts of them, the retry delays
+            # are init*factor^k: a batch that is still THE SAME batch `batch_bound` virtual seconds later - or that
+            # is in flight while nothing at all is pending in the reactor - will never resolve.
+            bound = batch_bound(script)
+            for _round in range(64):
+                cur = producer._batch_send_d
+                if cur is None:
+                    break
+                if cluster.next_timer() is None:
+                    r.stuck = "nothing is pending in the reactor (t=%s)" % cluster.clock.seconds()
+                    break
+                t0 = cluster.clock.seconds()
+                cluster.run_until(lambda: producer._batch_send_d is not cur, timeout=bound)
+                if producer._batch_send_d is cur:
+                    r.stuck = "in flight since before t=%s, still unresolved at t=%s (bound %s s)" % (t0, cluster.clock.seconds(), bound)
+                    break
             r.quiet = cluster.next_timer() is None
             if r.tracer is not None:
                 r.tracer.finish()
@@ -200,13 +284,18 @@ def run_script(script, trace=False):
             queued = set(id(q.deferred) for q in producer._batch_reqs)
             r.lost = [sid for sid, sd in r.sends.items() if not r.outcomes[sid] and id(sd["d"]) not in queued] \
                 if producer._batch_send_d is None else []
+            r.stuck_sends = [sid for sid, sd in r.sends.items() if not r.outcomes[sid] and id(sd["d"]) not in queued] \
+                if r.stuck else []
             if producer._sendLooper is not None and r.stop_t is None:
                 # the periodic timer never lets the reactor go idle: stop the producer to finish
                 r.final_stop = True
         except Livelock as e:
             r.error = "livelock: %s" % e
     r.producer_cfg = script["producer"]
-    r.transport_faults = any(st["do"] in ("kill_broker", "move_leader") or st.get("action") in ("drop_before", "drop_after", "silent", "delay") for st in script["steps"])
+    # (faults under which a request handed to a connection may never be seen by a broker: the connection is cut;
+    # a broker that merely refuses / never completes NEW connections, or hangs, is not one of them)
+    r.transport_faults = any(st["do"] in ("kill_broker", "move_leader", "restart_broker")
+                             or st.get("action") in ("drop_before", "drop_after", "silent", "delay") for st in script["steps"])
     return r
 
 
@@ -321,6 +410,9 @@ def check(r, pid):
             if not _contains(log, want[sid]):
                 bad("success-not-in-log", "send %d acknowledged but its messages are not in the log of %s/%d" % (sid, topic, partition))
             acked[sid] = (topic, partition, found, t, n)
+    if r.stuck:
+        bad("batch-never-resolves", "the batch in flight never resolves: %s; its sends %r have not fired (neither success nor failure)"
+            % (r.stuck, r.stuck_sends))
     for sid in r.lost:
         bad("never-fired", "send %d was dispatched, no batch is in flight any more, and its Deferred never fired" % sid)
     if pid in ("C09", "C01"):
@@ -335,6 +427,8 @@ def check(r, pid):
         for tp, l in by_tp.items():
             l.sort()
             for (a, oa), (b, ob) in zip(l, l[1:]):
+                if want[a] == want[b]:
+                    continue  # sends with identical content cannot be told apart in a log
                 if not oa < ob:
                     bad("acked-out-of-order", "%s/%d: send %d acknowledged at offset %d, later send %d at %d" % (tp[0], tp[1], a, oa, b, ob))
         for sid, (topic, part, off, t, n) in acked.items():
@@ -367,6 +461,14 @@ def summarize(r, hist):
             res = outs[0][3]
             hist["fs:send-" + ("ok" if outs[0][2] else "fail:" + str(res[1] if isinstance(res, (tuple, list)) else res))] += 1
     hist["fs:produce-requests"] += len(r.cluster.requests(api="Produce"))
+    if r.tracer is not None:
+        for k, v in r.tracer.stats.items():
+            hist["fs:" + k] += v
+    if r.producer_cfg["req_acks"] == 0 and any(not o[0][2] for o in r.outcomes.values() if o):
+        hist["fs:acks0-send-failed"] += 1
+    for e in r.cluster.log:
+        if e["kind"] == "connect" and e.get("result") in ("refused", "blackholed"):
+            hist["fs:connect-" + e["result"]] += 1
     hist["fs:stop"] += 1 if r.stop_t is not None else 0
     for st in r.script["steps"]:
         if st["do"] not in ("send",):
@@ -377,7 +479,7 @@ def stage(ctx, res, pid):
     import collections
     import random
 
-    n = ctx.scale(200, 6000)
+    n = ctx.scale(900, 6000)
     rng = random.Random(ctx.rng.randrange(1 << 30))
     hist = collections.Counter()
     t_bad = 0
@@ -406,6 +508,7 @@ def stage(ctx, res, pid):
                 f["scenario"] = script
                 res.monitor_failures.append(f)
     t_bad += validate_traces(res, pid, traced, hist, t_bad)
+    t_bad += validate_compose(res, pid, traced, hist)
     for k, v in hist.items():
         res.count(k, v)
     res.count("fullstack-runs", n)
@@ -446,6 +549,115 @@ def validate_traces(res, pid, traced, hist, shown=0):
     return bad
 
 
+def compose_lines(call):
+    """the `compose-call` request for one recorded `send_produce_request` (see Driver/ProducerComposeCodec.lean)"""
+    def outs(o):
+        if o[0] == "fail":
+            return "f:" + o[1]
+        return "ok:" + (";".join("%d/%d:%d:%d" % tuple(x) for x in o[1]) or "-")
+
+    return "compose-call %s %s %s" % (
+        ";".join("%d/%d" % k for k in call.keys),
+        ",".join("x" if ld == "x" else "N" if ld is None else str(ld) for ld in call.leaders),
+        "|".join(outs(q["out"]) for q in call.reqs) or "-")
+
+
+def compose_expect(call):
+    """what the REAL client did, in the model's vocabulary: (route line, result line)"""
+    from harness.lib import producer_drive as D
+
+    if call.reqs:
+        # (inside one request the encoder groups the partitions by topic - C04; which payloads go to which broker, and
+        # the order of the requests, is the routing kernel's)
+        route = "route " + ";".join("%d=%s" % (q["node"], ",".join(str(i) for i in sorted(call.keys.index(tp) for tp in q["parts"]))) for q in call.reqs)
+    else:
+        route = None  # nothing was sent: the model must say so too (route-error)
+    res = D.result_str(call.result)
+    if res in ("none", "resp -"):
+        res = "resp -"
+    return route, "result " + res
+
+
+def validate_compose(res, pid, traced, hist, model=None):
+    """COMPOSED model vs the real KafkaClient under the real Producer: for every `send_produce_request` of the
+    full-stack runs, the recorded cache leaders and broker-request outcomes are given to the product machine's
+    client call (`sendProduce`), and (a) the broker requests it routes (node, payload indices, order) must be the ones
+    the real client put on the wire, (b) the result it computes must be the result the real client handed to the
+    Producer at the boundary, (c) the environment hypotheses of the composed theorems (`callOK`: a broker answers only
+    what it was asked; `callAccounts`: ... exactly what it was asked) must hold of what the simulated brokers answered."""
+    from harness import core
+
+    model = model or core.run_model
+    todo = []
+    for script, tr in traced:
+        for call in tr.client.calls:
+            if call.result is None:
+                hist["fs:compose:call-never-completed"] += 1
+            elif call.odd or call.leaders is None or any(q["out"] is None for q in call.reqs):
+                hist["fs:compose:not-compared:" + (call.odd or "incomplete record")[:40]] += 1
+            else:
+                todo.append((script, call))
+    if not todo:
+        return 0
+    answers = model("producer", [compose_lines(c) for _s, c in todo])
+    bad = 0
+    for (script, call), got in zip(todo, answers):
+        hist["fs:compose:calls-compared"] += 1
+        want_route, want_res = compose_expect(call)
+        problems = []
+        if len(got) != 4:
+            problems.append("the model driver refused the call: %r" % (got,))
+        else:
+            route, result, callok, callacc = got
+            if result in ("result none",):
+                result = "result resp -"
+            if want_route is None:
+                # nothing was sent.  Either routing failed (the model must say the same), or the call failed before
+                # it routed - cancelled during version discovery, a metadata reload inside it failed: those answers
+                # carry no response and are raw events of the product machine (`CEv.ev`, `rawOK`), not `sendProduce`'s
+                if call.result[0] != "err":
+                    problems.append("the real client sent nothing, yet answered %r" % (want_res,))
+                elif not (route.startswith("route-error") and result == want_res):
+                    hist["fs:compose:early-failure-outside-sendProduce:" + call.result[1]] += 1
+                    hist["fs:compose:calls-compared"] -= 1
+                    continue
+            else:
+                if route != want_route and call.reloaded:
+                    # the client reloaded metadata while it was resolving the payloads one after the other: the leaders
+                    # recorded (the cache when the first request went out) are not the ones every payload was resolved
+                    # with (C07's known finding: a reload inside one call can leave an earlier payload on the old leader)
+                    hist["fs:compose:not-compared:metadata reloaded inside the call and the routes differ"] += 1
+                    hist["fs:compose:calls-compared"] -= 1
+                    continue
+                if call.reloaded:
+                    hist["fs:compose:calls-compared-with-a-reload-inside"] += 1
+                if route != want_route:
+                    problems.append("broker requests differ: real client %r, model %r" % (want_route, route))
+                if result != want_res:
+                    problems.append("results differ: real client %r, model %r" % (want_res, result))
+            if callok != "callok 1":
+                problems.append("environment hypothesis callOK fails on the observed outcomes")
+            if callacc != "callaccounts 1":
+                # (hypothesis of C01_composed_fires_exactly_once_run: every broker that answers, answers for exactly the
+                # partitions it was asked; with acks=0 there is no answer to speak of)
+                if script["producer"]["req_acks"] == 0:
+                    hist["fs:compose:callAccounts-not-applicable-acks0"] += 1
+                else:
+                    problems.append("environment hypothesis callAccounts fails on the observed outcomes")
+            if len(call.reqs) >= 2:
+                hist["fs:compose:multi-broker-calls-compared"] += 1
+            if call.result[0] == "fail":
+                hist["fs:compose:failed-payload-results-compared"] += 1
+        if problems:
+            bad += 1
+            if len(res.disagreements) < 3:
+                res.disagreements.append({
+                    "component": "producer-compose", "what": "composed model (Afkak/ProducerCompose.lean sendProduce) vs the real KafkaClient: " + "; ".join(problems),
+                    "scenario": script, "impl": [want_route, want_res], "model": got, "call": compose_lines(call),
+                    "tags": ["fullstack-compose:disagree"]})
+    return bad
+
+
 def replay(ctx, script, pid):
     r = run_script(script, trace=True)
     print("full-stack replay; producer config:", json.dumps(script["producer"]))
@@ -474,6 +686,18 @@ def replay(ctx, script, pid):
                 fails.append({"what": "boundary trace: model and implementation disagree at step %d" % i, "tags": ["fullstack-trace:disagree"]})
             for m in failed:
                 fails.append({"what": "boundary trace: " + K.WHAT.get(m, m), "tags": ["fullstack-trace:" + m]})
+            import collections
+
+            from harness import core
+
+            tmp, hist = core.Result(), collections.Counter()
+            validate_compose(tmp, pid, [(script, r.tracer)], hist)
+            print("  composed client call (sendProduce) vs the real client: %d calls compared" % hist.get("fs:compose:calls-compared", 0))
+            for d in tmp.disagreements:
+                print("    call:", d["call"])
+                fails.append({"what": d["what"], "tags": d["tags"]})
+    if r.stuck:
+        print("  the batch in flight never resolves:", r.stuck)
     for f in fails:
         print("  FAIL:", f["what"])
     if fails:
